@@ -11,6 +11,7 @@ import (
 	"time"
 
 	"github.com/ovn-org/libovsdb/model"
+	"github.com/ovn-org/libovsdb/ovsdb"
 )
 
 func c15CreateSchema() TxnSchema {
@@ -158,6 +159,37 @@ func c15Create(r *Run) {
 					"the insert generated for a model does not carry that model's own uuid / uuid-name", "")
 				return
 			}
+		}
+		// the row inserted under a name is changed later in the same transaction, through the conditional API:
+		// Where(model whose _uuid is the name) must produce the condition _uuid == named-uuid, which the
+		// server resolves to the inserted row
+		for j := range ms {
+			if kinds[j] != "named" || rng.Intn(2) == 0 {
+				continue
+			}
+			newName := fmt.Sprintf("renamed%d", serial)
+			upd := cdb.NewModel(ms[j].Table, "", Row{"name": VA(AS(newName))})
+			var wops []ovsdb.Operation
+			var werr error
+			if rng.Intn(2) == 0 {
+				wops, werr = c.Where(cdb.NewModel(ms[j].Table, ms[j].ID, nil)).Update(upd, fieldPtrs(cdb, ms[j].Table, upd, []string{"name"})...)
+			} else {
+				// (the model of the condition carries other values too: they must not take the name's place)
+				wops, werr = c.Where(cdb.NewModel(ms[j].Table, ms[j].ID, Row{"name": VA(AS("row-of-somebody-else"))})).Update(upd, fieldPtrs(cdb, ms[j].Table, upd, []string{"name"})...)
+			}
+			cs["where_by_name"] = ms[j].ID
+			r.Count("create:where-by-name")
+			if werr != nil || len(wops) != 1 || len(wops[0].Where) != 1 {
+				r.Violation("create", cs, fmt.Sprint(werr, wops), "one update with one condition", true, "Where(model named by a uuid-name).Update did not generate its operation", "")
+				return
+			}
+			if w := wops[0].Where[0]; w.Column != "_uuid" || w.Function != ovsdb.ConditionEqual || fmt.Sprint(w.Value) != fmt.Sprint(ovsdb.UUID{GoUUID: ms[j].ID}) {
+				r.Violation("create", cs, fmt.Sprintf("%+v", w), "_uuid == "+ms[j].ID, true, "the condition generated for a model named by a uuid-name is not on that name", "")
+				return
+			}
+			ops = append(ops, wops...)
+			ms[j].Row["name"] = VA(AS(newName)) // what the stored row must say in the end
+			break
 		}
 		res, err := c.Transact(ctx, ops...)
 		if err != nil {
